@@ -6,7 +6,7 @@ default engine), for every `FloatOps` (the four IEEE operations are parameters),
 capacity `cap`, every integer, every double bit pattern and every string.
 -/
 namespace Yaql.Props.C15
-open Yaql.Scalar
+open Yaql.Scalar Yaql.FloatRound
 set_option linter.unusedSimpArgs false
 set_option linter.unnecessarySimpa false
 
@@ -182,23 +182,11 @@ def floatResult (F : FloatOps) (o : AOp) (fx fy : UInt64) : Except Err SVal :=
   | .div => if isZeroBits fy then .error .zeroDivision else .ok (.flt (F.div fx fy))
   | .mod => match pyFloatMod F fx fy with | .ok w => .ok (.flt w) | .error e => .error e
 
-theorem ofNatRNE_err {n : Nat} {e : Err} (h : ofNatRNE n = .error e) : e = .overflow := by
-  unfold ofNatRNE at h
-  split at h
-  · cases h
-  · split at h
-    · cases h
-    · split at h
-      · cases h; rfl
-      · cases h
-
 theorem toFloat_err {i : Int} {e : Err} (h : toFloat i = .error e) : e = .overflow := by
   unfold toFloat at h
   split at h
   · cases h
-  · rename_i e' he
-    cases h
-    exact ofNatRNE_err he
+  · cases h; rfl
 
 theorem toF_err {x : Num} {e : Err} (h : x.toF = .error e) : e = .overflow := by
   cases x with
